@@ -18,7 +18,10 @@ ID = "C01"
 LEVEL = "exploration"
 RULE = ("grid: every (configuration, route, lattice value) triple, each configuration x route driven through the whole "
         "lattice on one object in two orders (exhaustive inside grid x lattice); random: Hypothesis-generated nested "
-        "specifications (Either/Union/Tuple/List/Dict/Set of the leaves) with spec-derived and random values; "
+        "specifications (Either/Union/Tuple/List/Dict/Set of the leaves) with spec-derived and random values; five routes "
+        "(setattr, trait_set, trait_setq, constructor, through a PrototypedFrom attribute); xgrid/xrandom (vf/props/c01x.py): "
+        "arrays (dtype x shape x casting x class), dates/times, UUID, paths, Expression, WeakRef, coercing containers, "
+        "dynamic Range/Enum, validated Properties and 27 Base*/alias classes x 4 routes x 190 values; "
         "non-trivial = value not already of the exact stored form (a conversion or a rejection is exercised); "
         "distinct by (spec, route, value) digest")
 ASSUMPTIONS = ["reference predicates are written from class docstrings / user manual; where the documentation is silent "
